@@ -736,6 +736,7 @@ def run(ctx):
                    'at least one header line or trailing bytes')
     failures, mismatches = [], []
     corr = [0]
+    per_sig = {}
 
     def correspond(ops):
         if not ctx.driver_ok or not ops:
@@ -769,8 +770,11 @@ def run(ctx):
         correspond(ops)
         for c in cases:
             fs, obs = ORACLES[c['stream']](c)
-            if len(failures) < 2000:
-                failures.extend(fs)
+            for f in fs:          # keep a bounded number per failure class (never let one class crowd out another)
+                k = json.dumps(f['sig'], sort_keys=True)
+                per_sig[k] = per_sig.get(k, 0) + 1
+                if per_sig[k] <= 40:
+                    failures.append(f)
             if c['stream'] == 'parse':
                 key, nontrivial, shown_in = ('p', c['line']), obs is not None, c['line']
             elif c['stream'] in ('getbanner', 'e2e'):
